@@ -51,9 +51,9 @@ def case(ctx, i):
         feats = {}
         for l in errs:
             if "wrong canonical type" in l:
-                kind = re.search(r"for '(function type|typedef|struct|class|union|enum|const|volatile|\w+)", l)
+                kind = re.search(r"for '(function type|method type|typedef|struct|class|union|enum|const|volatile|\w+)", l)
                 k = kind.group(1).replace(" ", "-") if kind else "?"
-                if k not in ("function-type", "typedef", "struct", "class", "union", "enum", "const", "volatile"):
+                if k not in ("function-type", "method-type", "typedef", "struct", "class", "union", "enum", "const", "volatile"):
                     k = "pointer-or-array" if ("*" in l or "[" in l) else "basic-or-other"
                 feats.setdefault("wrong-canonical-type:" + k, l)
             elif "could be read back from the typeid file" in l:
